@@ -192,6 +192,26 @@ def write_weather(ex, rnd):
     return info
 
 
+def write_automan(ex, rnd):
+    """the automatic-sowing tables get a non-zero 'Tbase' column (base temperature of the sowing temperature sum,
+    automan.txt[74:76]) that differs from every configured annual mean temperature: it must never reach TBASE"""
+    done = {}
+    for proj in sorted(os.listdir(os.path.join(ex, "project"))):
+        p = os.path.join(ex, "project", proj, "automan.txt")
+        if not os.path.exists(p):
+            continue
+        lines = open(p).read().split("\n")
+        vals = []
+        for i, ln in enumerate(lines[1:], 1):
+            if len(ln) > 76 and ln[:3].strip():
+                v = rnd.choice([2, 3, 4, 5, 12, 15])
+                lines[i] = ln[:74] + "%-2d" % v + ln[76:]
+                vals.append(v)
+        open(p, "w").write("\n".join(lines))
+        done[proj] = vals
+    return done
+
+
 def plan_runs(ctx):
     """(examples dir, [{line, soil or None}])"""
     import json, random
@@ -215,6 +235,17 @@ def plan_runs(ctx):
         plan.append({"line": "project=%s WeatherFolder=%s fcode=%s %s Altitude=73 Latitude=52.6732 poligonID=29872 EndDate=%s resultfolder=R/c19_%d "
                              "@every=%d @weather-ref=csv" % (proj, folder, fcode, rest, end, len(plan), 60 if ctx.thorough else 24),
                      "soil": None, "weather": folder})
+    # lower boundary: TBASE is the CONFIGURED annual mean temperature with automatic sowing on and off
+    write_automan(ex, rnd)
+    tb = [("ex1", "EN", "109_120", "soilId=075 plotNr=10001 AutoSowingHarvest=1", None),
+          ("ex3", "EN", "109_120", "soilId=075 plotNr=10001 AnnualAverageTemperature=%.1f" % rnd.uniform(4, 7.5), "on"),
+          ("zuc", "DE", "109_120", "soilId=001 plotNr=10001 AutoSowingHarvest=0 AnnualAverageTemperature=%.1f" % rnd.uniform(9.5, 13), "off"),
+          ("ex1", "EN", "109_121", "soilId=160 plotNr=10002 AutoSowingHarvest=0 AnnualAverageTemperature=10.4", "off")]
+    for k, (proj, fmt, fcode, rest, _) in enumerate(tb if ctx.thorough else tb[:3]):
+        end = ("1231%d" if fmt == "EN" else "3112%d") % (1990 if ctx.thorough else 1981)
+        plan.append({"line": "project=%s WeatherFolder=historical fcode=%s %s Altitude=73 Latitude=52.6732 poligonID=29872 EndDate=%s resultfolder=R/c19_%d "
+                             "@every=%d @weather-ref=csv" % (proj, fcode, rest, end, len(plan), 60 if ctx.thorough else 24),
+                     "soil": None, "weather": "historical", "tbase": rest})
     soils = gen_soils(rnd, ctx.thorough)
     write_soils(ex, soils)
     for so in soils:
@@ -276,10 +307,12 @@ def eval_bd(ctx, corr, inits, plan):
 
 def fail_key(line_key, plan):
     """name a failing traced run after its soil FILE: only an input density below 0.567 is the recorded finding F17"""
-    m = re.match(r"(envelope|surface-value):traced-line-(\d+)$", line_key)
+    m = re.match(r"(envelope|surface-value|lower-boundary):traced-line-(\d+)$", line_key)
     if not m or int(m.group(2)) >= len(plan):
         return line_key, None
     p = plan[int(m.group(2))]
+    if m.group(1) == "lower-boundary":
+        return "lower-boundary:not-the-configured-annual-mean:line-%s" % m.group(2), None
     if m.group(1) == "surface-value" or p["soil"] is None:
         return "%s:weather-%s:line-%s" % (m.group(1), p.get("weather", "historical"), m.group(2)), None
     so = p["soil"]
@@ -324,6 +357,27 @@ def correspond(ctx):
                                       "days_with_missing_radiation": sum(r_.get("radiation_missing_days", 0) for r_ in runs),
                                       "scenario_runs": [{"weather": plan[r_["line"]].get("weather"), "days": r_["days"],
                                                          "radiation_missing_days": r_.get("radiation_missing_days")} for r_ in runs if plan[r_["line"]].get("weather")]}
+    # TBASE of every traced run is the configured annual mean temperature
+    trecs = ["(%s, %s)" % (fl(r_["tbase_configured"]), fls(r_.get("tbase_seen") or [])) for r_ in runs]
+    if trecs:
+        body = HDR + ["Definition cases : list (float * list float) := [\n%s\n]." % ";\n".join(trecs),
+                      "Definition M := Eval vm_compute in mismatches tbase_check 0%nat cases.", "Print M."]
+        rc_, o_ = ctx.coq_eval("Cases_soiltemp_tbase", "\n".join(body) + "\n", timeout=600)
+        ok_, pairs_ = parse_M(o_)
+        if rc_ != 0 or not ok_:
+            c.mismatches.append({"kind": "coq-eval", "shard": "Cases_soiltemp_tbase", "output": o_[-1200:]})
+        for idx, _ in pairs_:
+            r_ = runs[idx]
+            c.mismatches.append({"kind": "lower-boundary-temperature (g.TBASE is not the configured AnnualAverageTemperature)",
+                                 "configured": r_["tbase_configured_value"], "from": r_["tbase_from"],
+                                 "seen": [float.fromhex(v) for v in r_.get("tbase_seen") or []], "line": plan[r_["line"]]["line"]})
+        c.cases += len(trecs)
+    ctx.extra["lower_boundary"] = [{"line": r_["line"], "configured": r_["tbase_configured_value"], "from": r_["tbase_from"],
+                                    "auto_sowing": ("AutoSowingHarvest=1" in plan[r_["line"]]["line"] and "on (batch line)") or
+                                                   ("AutoSowingHarvest=0" in plan[r_["line"]]["line"] and "off (batch line)") or "project config"}
+                                   for r_ in runs]
+    if len({r_["tbase_configured_value"] for r_ in runs}) < 3:
+        c.mismatches.append({"kind": "coverage-missing", "what": "fewer than three different configured annual mean temperatures"})
     for x in rows:
         if x["k"] == "noweatherref":
             c.mismatches.append({"kind": "weather-file-not-readable-by-the-reference", "line": plan[x["line"]]["line"]})
